@@ -288,3 +288,21 @@ fn sort_stub_probe() {
   assert!(a[0] <= a[1] && a[1] <= a[2], "sorted");
   assert!(unsafe { SORT_STUBBED }, "the sort contract stub is in effect");
 }
+
+// probe (not registered): does the in-place `into_iter().filter().map().collect()` of the small-ellipse branch
+// verify in isolation?
+#[kani::proof] #[kani::unwind(12)]
+#[kani::stub(<[u64]>::sort_unstable, ghost_sort_unstable)]
+fn collect_probe() {
+  let root: u64 = kani::any(); kani::assume(root < 48);
+  let l = Layer::new(1);
+  let keep: [bool; 4] = kani::any();
+  let mut neigs: Vec<u64> = l.neighbours(root, true).values_vec().into_iter()
+    .filter(|h| keep[(*h & 3) as usize])
+    .map(|h| h >> 2)
+    .collect();
+  neigs.sort_unstable();
+  neigs.dedup();
+  assert!(neigs.len() <= 9, "at most 9 cells");
+  for n in neigs { assert!(n < 12, "base cells"); }
+}
